@@ -17,16 +17,16 @@ case $pkgline in
 esac
 cd $WT && git checkout -q -- . && git status --short | grep -v '^??' && { echo "worktree dirty"; exit 2; }
 RACE=""; grep -qi -- "-race" $D/README.md && RACE="-race"
-run_demo() { cp $D/demo_test.go $WT/$DEST/zz_seed_demo_test.go; (cd $WT && CGO_ENABLED=1 go test $RACE -vet=off -count=1 ./$DEST -run 'Seed|Demo|Test' 2>&1 | tail -3); local rc=${PIPESTATUS[0]}; rm -f $WT/$DEST/zz_seed_demo_test.go; }
+run_demo() { grep -v "^//go:build\|^// +build" $D/demo_test.go > $WT/$DEST/zz_seed_demo_test.go; (cd $WT && CGO_ENABLED=1 go test $RACE -vet=off -count=1 ./$DEST -run 'Seed|Demo|Test' 2>&1 | tail -3); local rc=${PIPESTATUS[0]}; rm -f $WT/$DEST/zz_seed_demo_test.go; }
 # clean: demo must pass
-cp $D/demo_test.go $WT/$DEST/zz_seed_demo_test.go
+grep -v "^//go:build\|^// +build" $D/demo_test.go > $WT/$DEST/zz_seed_demo_test.go
 (cd $WT && CGO_ENABLED=1 go test $RACE -vet=off -count=1 ./$DEST >/tmp/seed_clean.log 2>&1); CLEAN=$?
 rm -f $WT/$DEST/zz_seed_demo_test.go
 # with change: build + suite (without demo) green, demo fails
 (cd $WT && git apply $D/patch.diff) || { echo "patch does not apply in worktree"; exit 2; }
 (cd $WT && go build ./... >/tmp/seed_build.log 2>&1); BUILD=$?
 (cd $WT && go test -vet=off -count=1 . ./parser ./cmd/pql >/tmp/seed_suite.log 2>&1); SUITE=$?
-cp $D/demo_test.go $WT/$DEST/zz_seed_demo_test.go
+grep -v "^//go:build\|^// +build" $D/demo_test.go > $WT/$DEST/zz_seed_demo_test.go
 (cd $WT && CGO_ENABLED=1 go test $RACE -vet=off -count=1 ./$DEST >/tmp/seed_demo.log 2>&1); DEMO=$?
 rm -f $WT/$DEST/zz_seed_demo_test.go
 (cd $WT && git checkout -q -- .)
